@@ -386,4 +386,753 @@ theorem symLoopR_exits (fuel : Nat) (ev mf : Bool) (s : St) (h : s.dp.pos ≤ s.
   have hs := symLoop_spec fuel ev mf s h
   exact ⟨hs.2.1, hs.2.2⟩
 
+/-! ### one call -/
+
+/-- what a run of the decoder keeps beyond `Wr`: `allow_eopm`, `has_wrapped`, and `full = pos - LZ_DICT_INIT_POS` before the
+    first wrap -/
+structure Dx (s s' : St) : Prop where
+  allowEopm : s'.allowEopm = s.allowEopm
+  hasWrapped : s'.dp.hasWrapped = s.dp.hasWrapped
+  full : s.dp.hasWrapped = false → s.dp.full + LZ_DICT_INIT_POS = s.dp.pos → s'.dp.full + LZ_DICT_INIT_POS = s'.dp.pos
+
+theorem Dx.refl (s : St) : Dx s s := ⟨rfl, rfl, fun _ h => h⟩
+theorem Dx.trans {a b c : St} (h1 : Dx a b) (h2 : Dx b c) : Dx a c :=
+  ⟨h2.allowEopm.trans h1.allowEopm, h2.hasWrapped.trans h1.hasWrapped,
+   fun hw hf => h2.full (h1.hasWrapped.trans hw) (h1.full hw hf)⟩
+
+theorem Dx.ofFr {s s' : St} (h : Fr s s') : Dx s s' :=
+  ⟨h.allowEopm, by rw [h.dp], by rw [h.dp]; exact fun _ hf => hf⟩
+
+theorem Dx.ofAdvance {s t : St} (n : Nat) (ha : t.allowEopm = s.allowEopm) (hd : t.dp = s.dp.advance n) : Dx s t := by
+  refine ⟨ha, by rw [hd]; rfl, ?_⟩
+  intro hw hf
+  rw [hd]
+  unfold DictPos.advance
+  simp only [hw]
+  have : LZ_DICT_INIT_POS = 576 := rfl
+  simp only [Bool.false_eq_true, if_false]
+  omega
+
+theorem dx_doWrite (p : Pending) (s : St) : Dx s (resSt (doWrite p s)) := by
+  cases p with
+  | none => exact Dx.refl s
+  | stuck => exact Dx.refl s
+  | litWrite sym =>
+    have h : doWrite (.litWrite sym) s = (if s.dp.pos == s.dp.limit then EStateM.Result.error (Exit.outFull (.litWrite sym)) s
+               else .ok () (s.put (UInt8.ofNat sym))) := rfl
+    cases hb : (s.dp.pos == s.dp.limit) <;> (rw [hb] at h; rw [h])
+    · exact Dx.ofAdvance 1 rfl rfl
+    · exact Dx.refl s
+  | shortRep =>
+    have h : doWrite .shortRep s = (if s.dp.pos == s.dp.limit then EStateM.Result.error (Exit.outFull .shortRep) s
+               else .ok () (s.put (s.dictGet s.rep0))) := rfl
+    cases hb : (s.dp.pos == s.dp.limit) <;> (rw [hb] at h; rw [h])
+    · exact Dx.ofAdvance 1 rfl rfl
+    · exact Dx.refl s
+  | copy len =>
+    have h : doWrite (.copy len) s = (if len - min (s.dp.limit - s.dp.pos) len != 0
+               then EStateM.Result.error (Exit.outFull (.copy (len - min (s.dp.limit - s.dp.pos) len))) (s.repeatN (min (s.dp.limit - s.dp.pos) len))
+               else .ok () (s.repeatN (min (s.dp.limit - s.dp.pos) len))) := rfl
+    cases hb : (len - min (s.dp.limit - s.dp.pos) len != 0) <;> (rw [hb] at h; rw [h])
+    · exact Dx.ofAdvance _ rfl rfl
+    · exact Dx.ofAdvance _ rfl rfl
+
+theorem dx_symStep (ev mf : Bool) (s : St) : Dx s (resSt (symStep ev mf s)) := by
+  have hp := sat_symPrelude ev mf s
+  show Dx s (resSt (EStateM.bind (symPrelude ev mf) _ s))
+  unfold EStateM.bind
+  cases h1 : symPrelude ev mf s with
+  | error e s1 => rw [h1] at hp; exact Dx.ofFr hp.1
+  | ok ev' s1 =>
+    rw [h1] at hp
+    have hd := sat_decodeSymbol ev' s1
+    show Dx s (resSt (EStateM.bind (decodeSymbol ev') _ s1))
+    unfold EStateM.bind
+    cases h2 : decodeSymbol ev' s1 with
+    | error e s2 => rw [h2] at hd; exact Dx.ofFr (hp.1.trans hd.1)
+    | ok act s2 =>
+      rw [h2] at hd
+      have hw := dx_doWrite act s2
+      have hfr : Fr s s2 := hp.1.trans hd.1
+      show Dx s (resSt (EStateM.bind (doWrite act) _ s2))
+      unfold EStateM.bind
+      cases h3 : doWrite act s2 with
+      | error e s3 => rw [h3] at hw; exact (Dx.ofFr hfr).trans hw
+      | ok u s3 => rw [h3] at hw; exact (Dx.ofFr hfr).trans hw
+
+theorem dx_symLoop : ∀ (fuel : Nat) (ev mf : Bool) (s : St), Dx s (resSt (symLoop fuel ev mf s))
+  | 0, ev, mf, s => Dx.refl s
+  | fuel + 1, ev, mf, s => by
+    unfold symLoop
+    have hs := dx_symStep ev mf s
+    show Dx s (resSt (EStateM.bind (symStep ev mf) _ s))
+    unfold EStateM.bind
+    cases h1 : symStep ev mf s with
+    | error e s1 => rw [h1] at hs; exact hs
+    | ok ev' s1 => rw [h1] at hs; exact hs.trans (dx_symLoop fuel ev' mf s1)
+
+theorem lzmaRunR_none_fst (s : St) : (lzmaRunR s none).1 = lzmaRun s := by
+  unfold lzmaRunR lzmaRun
+  simp only []
+  show _ = EStateM.bind (doWrite s.pending) _ _
+  unfold EStateM.bind
+  cases h1 : doWrite s.pending { s with dp := { s.dp with limit := clampedLimit s }, pending := .none } with
+  | error e t => rfl
+  | ok u t => exact symLoopR_fst _ _ _ t
+
+theorem dx_lzmaRun (s : St) :
+    Dx { s with dp := { s.dp with limit := clampedLimit s }, pending := .none } (resSt (lzmaRun s)) := by
+  unfold lzmaRun
+  simp only []
+  generalize hs1 : ({ s with dp := { s.dp with limit := clampedLimit s }, pending := .none } : St) = s1
+  have hw := dx_doWrite s.pending s1
+  show Dx s1 (resSt (EStateM.bind (doWrite s.pending) _ s1))
+  unfold EStateM.bind
+  cases h1 : doWrite s.pending s1 with
+  | error e s2 => rw [h1] at hw; exact hw
+  | ok u s2 => rw [h1] at hw; exact hw.trans (dx_symLoop _ _ _ s2)
+
+/-- the resumed run (`sym0 = some k`), relative to the restored top-of-symbol state -/
+theorem lzmaRunR_some_spec (s : St) (k : SymSnap) (h : s.dp.pos ≤ s.dp.limit) :
+    Wr (k.restore { s with dp := { s.dp with limit := clampedLimit s }, pending := .none }) (resSt (lzmaRunR s (some k)).1)
+    ∧ Dx (k.restore { s with dp := { s.dp with limit := clampedLimit s }, pending := .none }) (resSt (lzmaRunR s (some k)).1)
+    ∧ (∀ a t, (lzmaRunR s (some k)).1 ≠ .ok a t) ∧ (∀ t, (lzmaRunR s (some k)).1 ≠ .error .fuel t)
+    ∧ (resSt (decodeSymbol (s.uncomp.isNone || s.eopmValid)
+          (k.restore { s with dp := { s.dp with limit := clampedLimit s }, pending := .none }))).inPos
+        ≤ (resSt (lzmaRunR s (some k)).1).inPos := by
+  have hc := clampedLimit_bounds s h
+  unfold lzmaRunR
+  simp only []
+  generalize ht0 : k.restore ({ s with dp := { s.dp with limit := clampedLimit s }, pending := .none } : St) = t0
+  have e1 : t0.dp.limit = clampedLimit s := by rw [← ht0]; rfl
+  have e2 : t0.dp.pos = s.dp.pos := by rw [← ht0]; rfl
+  generalize (s.uncomp.isNone || s.eopmValid) = ev
+  have hd := sat_decodeSymbol ev t0
+  cases h2 : decodeSymbol ev t0 with
+  | error e t =>
+    rw [h2] at hd
+    have hne : ∀ t', (EStateM.Result.error e t : EStateM.Result Exit St Unit) ≠ .error .fuel t' := by
+      intro t' e'; injection e' with e1 e2; subst e1; exact hd.2.2 t rfl
+    cases e with
+    | needInput =>
+      refine ⟨hd.1.toWr, Dx.ofFr hd.1, ?_, hne, Nat.le_refl _⟩
+      intro a t' e'; cases e'
+    | dataError =>
+      refine ⟨hd.1.toWr, Dx.ofFr hd.1, ?_, hne, Nat.le_refl _⟩
+      intro a t' e'; cases e'
+    | streamEnd =>
+      refine ⟨hd.1.toWr, Dx.ofFr hd.1, ?_, hne, Nat.le_refl _⟩
+      intro a t' e'; cases e'
+    | outFull p =>
+      refine ⟨hd.1.toWr, Dx.ofFr hd.1, ?_, hne, Nat.le_refl _⟩
+      intro a t' e'; cases e'
+    | fuel => exact absurd rfl (hd.2.2 t)
+  | ok act t =>
+    rw [h2] at hd
+    have hfr : Fr t0 t := hd.1
+    have hw := doWrite_spec act t
+    have hx := dx_doWrite act t
+    simp only []
+    cases h3 : doWrite act t with
+    | error e u =>
+      rw [h3] at hw hx
+      refine ⟨hfr.toWr.trans hw.1, (Dx.ofFr hfr).trans hx, ?_, ?_, hw.1.pos_mono⟩
+      · intro a t' e'; cases e'
+      · intro t' e'; injection e' with e1 e2; subst e1; exact hw.2.2 u rfl
+    | ok x u =>
+      rw [h3] at hw hx
+      have hw1 : Wr t u := hw.1
+      have hwu : Wr t0 u := hfr.toWr.trans hw1
+      have hl0 : t0.dp.pos ≤ t0.dp.limit := by rw [e1, e2]; exact hc.1
+      have hlu : u.dp.pos ≤ u.dp.limit := hwu.in_limit hl0
+      simp only []
+      have hloop := symLoop_spec (clampedLimit s - s.dp.pos + 2) ev (mightFinish s) u hlu
+      have hdl := dx_symLoop (clampedLimit s - s.dp.pos + 2) ev (mightFinish s) u
+      rw [symLoopR_fst]
+      refine ⟨hwu.trans hloop.1, ((Dx.ofFr hfr).trans hx).trans hdl, hloop.2.1, ?_, ?_⟩
+      · apply hloop.2.2
+        have := hwu.limit; have := hwu.dpos_mono
+        omega
+      · exact Nat.le_trans hw1.pos_mono hloop.1.pos_mono
+
+theorem unstick_eq (s : St) : unstick s = { s with pending := (unstick s).pending } := by
+  unfold unstick
+  split <;> rfl
+
+theorem SymPre.of_none (r : RSt) (h : r.sym0 = none) : SymPre r := by
+  intro k hk; rw [h] at hk; cases hk
+
+/-- the frame part of `L1Spec` (without `SymPre` the conjuncts `Wr.pos_mono`/`Wr.pos_le` fail for an ill-formed `sym0`) -/
+theorem l1Spec' (r : RSt) (hpre : SymPre r) (hin : r.s.inPos ≤ r.s.inp.size) (hlim : r.s.dp.pos ≤ r.s.dp.limit) :
+    Wr r.s (lzmaCallR r).2.s ∧ (lzmaCallR r).1 ≠ .progError ∧ (lzmaCallR r).2.overrun = r.overrun
+    ∧ (lzmaCallR r).2.s.allowEopm = r.s.allowEopm ∧ ((lzmaCallR r).2.s.uncomp = none ↔ r.s.uncomp = none)
+    ∧ (lzmaCallR r).2.s.dp.hasWrapped = r.s.dp.hasWrapped
+    ∧ (r.s.dp.hasWrapped = false → r.s.dp.full + LZ_DICT_INIT_POS = r.s.dp.pos →
+        (lzmaCallR r).2.s.dp.full + LZ_DICT_INIT_POS = (lzmaCallR r).2.s.dp.pos) := by
+  have hfr := fr_rcReadInitN r.s.initLeft r.s
+  have hz : r.s.initLeft = 0 → rcReadInit r.s = .ok true r.s := by
+    intro h0; unfold rcReadInit; rw [h0]; rfl
+  unfold lzmaCallR
+  cases hri : rcReadInit r.s with
+  | error e s0 =>
+    have hfr0 : Fr r.s s0 := by
+      have : rcReadInitN r.s.initLeft r.s = .error e s0 := hri
+      rw [this] at hfr; exact hfr
+    simp only []
+    exact ⟨hfr0.toWr, (by simp), trivial, hfr0.allowEopm, (by rw [hfr0.uncomp]), (by rw [hfr0.dp]), (by rw [hfr0.dp]; exact fun _ h => h)⟩
+  | ok bb s0 =>
+    have hfr0 : Fr r.s s0 := by
+      have : rcReadInitN r.s.initLeft r.s = .ok bb s0 := hri
+      rw [this] at hfr; exact hfr
+    cases bb with
+    | false =>
+      simp only []
+      exact ⟨hfr0.toWr, (by simp), trivial, hfr0.allowEopm, (by rw [hfr0.uncomp]), (by rw [hfr0.dp]), (by rw [hfr0.dp]; exact fun _ h => h)⟩
+    | true =>
+      simp only []
+      have h0 : s0.dp.pos ≤ s0.dp.limit := by rw [hfr0.dp]; exact hlim
+      have hc := clampedLimit_bounds s0 h0
+      generalize hs1 : ({ s0 with dp := { s0.dp with limit := clampedLimit s0 }, pending := .none } : St) = s1
+      -- the run, relative to `s1`
+      have hrun : Wr s1 (resSt (lzmaRunR s0 r.sym0).1) ∧ Dx s1 (resSt (lzmaRunR s0 r.sym0).1)
+          ∧ (∀ a t, (lzmaRunR s0 r.sym0).1 ≠ .ok a t) ∧ (∀ t, (lzmaRunR s0 r.sym0).1 ≠ .error .fuel t) := by
+        cases hk : r.sym0 with
+        | none =>
+          rw [lzmaRunR_none_fst]
+          have h1 := lzmaRun_spec s0 h0
+          have h2 := dx_lzmaRun s0
+          rw [hs1] at h1 h2
+          exact ⟨h1.1, h2, h1.2.1, h1.2.2⟩
+        | some k =>
+          obtain ⟨p1, p2, p3⟩ := hpre k hk
+          have hs0 : s0 = r.s := by
+            have := hz p1; rw [this] at hri; injection hri with _ h2; exact h2.symm
+          have hsp := lzmaRunR_some_spec s0 k h0
+          rw [hs1] at hsp
+          obtain ⟨q1, q2, q3, q4, q5⟩ := hsp
+          have p3' : s1.inPos ≤ (resSt (decodeSymbol (s0.uncomp.isNone || s0.eopmValid) (k.restore s1))).inPos := by
+            rw [← hs1, hs0]; exact p3 (clampedLimit r.s) r.s.inp ⟨hin, hin, fun _ _ _ _ => rfl⟩
+          have p2' : k.inPos ≤ s1.inPos := by rw [← hs1, hs0]; exact p2
+          refine ⟨?_, ⟨q2.allowEopm, q2.hasWrapped, q2.full⟩, q3, q4⟩
+          exact ⟨q1.inp, Nat.le_trans p3' q5, fun hh => q1.pos_le (Nat.le_trans p2' hh), q1.outBase, q1.l2, q1.limit, q1.size,
+                 q1.needReset, q1.dpos_mono, q1.hist_eq, q1.in_limit⟩
+      obtain ⟨w1, w2, w3, w4⟩ := hrun
+      generalize (lzmaRunR s0 r.sym0) = run at w1 w2 w3 w4 ⊢
+      have hst := lzmaFinish_state run.1 s0.dp.limit s0.hist.size s0.uncomp
+      have hfl := lzmaFinish_fields run.1 s0.dp.limit s0.hist.size s0.uncomp
+      generalize hfin : lzmaFinish run.1 s0.dp.limit s0.hist.size s0.uncomp = fin at hst hfl
+      have hu := unstick_eq fin.2
+      generalize hs4 : unstick fin.2 = s4 at hu
+      have g1 : s4.inp = fin.2.inp := by rw [hu]
+      have g2 : s4.inPos = fin.2.inPos := by rw [hu]
+      have g3 : s4.outBase = fin.2.outBase := by rw [hu]
+      have g4 : s4.l2 = fin.2.l2 := by rw [hu]
+      have g5 : s4.hist = fin.2.hist := by rw [hu]
+      have g6 : s4.dp = fin.2.dp := by rw [hu]
+      have g7 : s4.allowEopm = fin.2.allowEopm := by rw [hu]
+      have g8 : s4.uncomp = fin.2.uncomp := by rw [hu]
+      have hdx1 : Dx s0 s1 := by rw [← hs1]; exact ⟨rfl, rfl, fun _ h => h⟩
+      have hdx : Dx r.s (resSt run.1) := ((Dx.ofFr hfr0).trans hdx1).trans w2
+      refine ⟨hfr0.toWr.trans ?_, ?_, trivial, ?_, ?_, ?_, ?_⟩
+      · refine wr_unclamp s0 s1 (resSt run.1) s4 (clampedLimit s0) hc.1 hc.2 (by rw [← hs1]) (by rw [← hs1]) (by rw [← hs1])
+          (by rw [← hs1]) (by rw [← hs1]) (by rw [← hs1]) w1
+          (g1.trans hst.1) (g2.trans hst.2.1) (g3.trans hst.2.2.1) (g4.trans hst.2.2.2.1) (g5.trans hst.2.2.2.2.1)
+          (g6.trans hst.2.2.2.2.2)
+      · show fin.1 ≠ .progError
+        rw [← hfin]; exact lzmaFinish_ret _ _ _ _ w3 w4
+      · show s4.allowEopm = r.s.allowEopm
+        rw [g7, hfl.2.2.2.2.2.2.1]; exact hdx.allowEopm
+      · show s4.uncomp = none ↔ r.s.uncomp = none
+        rw [g8, hfl.2.2.2.2.2.2.2.2, hfr0.uncomp]
+        cases r.s.uncomp <;> simp
+      · show s4.dp.hasWrapped = r.s.dp.hasWrapped
+        rw [g6, hst.2.2.2.2.2]; exact hdx.hasWrapped
+      · show r.s.dp.hasWrapped = false → r.s.dp.full + LZ_DICT_INIT_POS = r.s.dp.pos → s4.dp.full + LZ_DICT_INIT_POS = s4.dp.pos
+        rw [g6, hst.2.2.2.2.2]; exact hdx.full
+
+/-- a call that does not resume inside a symbol satisfies the conclusion of `L1Spec` unconditionally -/
+theorem l1Spec_none (r : RSt) (h : r.sym0 = none) (hin : r.s.inPos ≤ r.s.inp.size) (hlim : r.s.dp.pos ≤ r.s.dp.limit) :
+    Wr r.s (lzmaCallR r).2.s ∧ (lzmaCallR r).1 ≠ .progError ∧ (lzmaCallR r).2.overrun = r.overrun
+    ∧ (lzmaCallR r).2.s.allowEopm = r.s.allowEopm ∧ ((lzmaCallR r).2.s.uncomp = none ↔ r.s.uncomp = none)
+    ∧ (lzmaCallR r).2.s.dp.hasWrapped = r.s.dp.hasWrapped
+    ∧ (r.s.dp.hasWrapped = false → r.s.dp.full + LZ_DICT_INIT_POS = r.s.dp.pos →
+        (lzmaCallR r).2.s.dp.full + LZ_DICT_INIT_POS = (lzmaCallR r).2.s.dp.pos) :=
+  l1Spec' r (SymPre.of_none r h) hin hlim
+
+/-! ### the saved resume point after a call (`SymPre` is an invariant) -/
+
+/-- replaying a symbol that starved, over an input that agrees with the consumed bytes (any limit, any `uncomp`), reads at
+    least as far as the starved run did -/
+theorem replay_reach (ev : Bool) (t0 t : St) (b : ByteArray) (L : Nat) (u' : Option Nat)
+    (h : decodeSymbol ev t0 = .error .needInput t) (hag : Agree t.inPos t0.inp b) :
+    t.inPos ≤ (resSt (decodeSymbol ev (ov b L u' t0))).inPos := by
+  have hi := (ind_decodeSymbol (fun _ => L) (fun _ => u') id id ev).comm (St.withInp t0 b)
+  have e : ov b L u' t0 = gv (fun _ => L) (fun _ => u') id id (St.withInp t0 b) := rfl
+  rw [e, hi]
+  have hm : ∀ r : EStateM.Result Exit St Pending,
+      (resSt (mapSt (gv (fun _ => L) (fun _ => u') id id) r)).inPos = (resSt r).inPos := by
+    intro r; cases r <;> rfl
+  rw [hm]
+  rcases (loc_decodeSymbol ev).rel t.inPos t0 (St.withInp t0 b) ⟨t0, t0.inp, b, rfl, rfl, hag⟩ with hs | ⟨_, hd⟩
+  · rw [h] at hs
+    cases h2 : decodeSymbol ev (St.withInp t0 b) with
+    | ok a t' => rw [h2] at hs; exact absurd hs id
+    | error e' t' =>
+      rw [h2] at hs
+      have := hs.2.inPos
+      show t.inPos ≤ t'.inPos
+      omega
+  · rcases hd with h' | ⟨t', h', hle⟩
+    · exact Nat.le_of_lt h'
+    · rw [h']; exact hle
+
+/-- a top-of-symbol state of the call that started (after `rc_read_init`) in `s0` -/
+structure Top (s0 : St) (ev : Bool) (u : St) : Prop where
+  initLeft : u.initLeft = s0.initLeft
+  pending : u.pending = .none
+  inp : u.inp = s0.inp
+  inpos : u.inPos ≤ u.inp.size
+  ev : ev = (u.uncomp.isNone || u.eopmValid)
+  uncomp : u.uncomp = s0.uncomp
+
+theorem Top.of_restore {s0 : St} {ev : Bool} {u t : St} (h : Top s0 ev u) (k : SymSnap) (e : k.restore u = t)
+    (hp : t.inPos ≤ u.inp.size) : Top s0 ev t := by
+  subst e
+  exact ⟨h.initLeft, h.pending, h.inp, hp, h.ev, h.uncomp⟩
+
+theorem Top.of_write {s0 : St} {ev : Bool} {u t : St} (h : Top s0 ev u)
+    (e : t = { u with hist := t.hist, dp := { u.dp with pos := t.dp.pos, full := t.dp.full } }) : Top s0 ev t := by
+  rw [e]
+  exact ⟨h.initLeft, h.pending, h.inp, h.inpos, h.ev, h.uncomp⟩
+
+/-- if a resume point is saved, the run ended by starving inside the symbol that started at that point -/
+def SymEnd {α : Type} (s0 : St) (x : EStateM.Result Exit St α × Option SymSnap) : Prop :=
+  ∀ k, x.2 = some k → ∃ ev t0 t, Top s0 ev t0 ∧ k = SymSnap.of t0 ∧ decodeSymbol ev t0 = .error .needInput t
+    ∧ resSt x.1 = t ∧ (∃ e, x.1 = .error e t ∧ e = .needInput)
+
+theorem SymEnd.none {α : Type} (s0 : St) (r : EStateM.Result Exit St α) : SymEnd s0 (r, none) := by
+  intro k hk; cases hk
+
+theorem symBodyR_top (s0 : St) (ev : Bool) (t0 : St) (h : Top s0 ev t0) :
+    SymEnd s0 (symBodyR ev t0) ∧ ∀ ev' t, (symBodyR ev t0).1 = .ok ev' t → Top s0 ev' t := by
+  unfold symBodyR
+  cases h2 : rcNormalize t0 with
+  | error e t' => exact ⟨SymEnd.none _ _, fun ev' t e' => by cases e'⟩
+  | ok u t' =>
+    simp only []
+    have hf := decodeSymbol_frame ev t0
+    cases h3 : decodeSymbol ev t0 with
+    | error e t =>
+      cases e with
+      | needInput =>
+        refine ⟨?_, fun ev' t e' => by cases e'⟩
+        intro k hk
+        injection hk with hk
+        exact ⟨ev, t0, t, h, hk.symm, h3, rfl, _, rfl, rfl⟩
+      | dataError => exact ⟨SymEnd.none _ _, fun ev' t e' => by cases e'⟩
+      | streamEnd => exact ⟨SymEnd.none _ _, fun ev' t e' => by cases e'⟩
+      | outFull p => exact ⟨SymEnd.none _ _, fun ev' t e' => by cases e'⟩
+      | fuel => exact ⟨SymEnd.none _ _, fun ev' t e' => by cases e'⟩
+    | ok act t =>
+      rw [h3] at hf
+      have ht : Top s0 ev t := h.of_restore _ hf.1 (hf.2.2 h.inpos)
+      simp only []
+      have hw := doWrite_frame act t
+      cases h4 : doWrite act t with
+      | error e u => exact ⟨SymEnd.none _ _, fun ev' t e' => by cases e'⟩
+      | ok x u =>
+        rw [h4] at hw
+        refine ⟨SymEnd.none _ _, ?_⟩
+        intro ev' t' e'
+        injection e' with e1 e2
+        subst e1; subst e2
+        exact ht.of_write hw
+
+theorem symStepR_top (s0 : St) (ev mf : Bool) (s : St) (h : Top s0 ev s) :
+    SymEnd s0 (symStepR ev mf s) ∧ ∀ ev' t, (symStepR ev mf s).1 = .ok ev' t → Top s0 ev' t := by
+  unfold symStepR
+  have hf := symPrelude_frame ev mf s
+  cases h1 : symPrelude ev mf s with
+  | error e t => exact ⟨SymEnd.none _ _, fun ev' t e' => by cases e'⟩
+  | ok ev1 t =>
+    rw [h1] at hf
+    simp only []
+    apply symBodyR_top
+    have hp : t.inPos ≤ s.inp.size := hf.2.2 h.inpos
+    have hf1 : t = { s with range := t.range, code := t.code, inPos := t.inPos, eopmValid := t.eopmValid } := hf.1
+    rcases symPrelude_ok ev mf s t ev1 h1 with ⟨e1, e2, _⟩ | ⟨_, _, e2, e3⟩
+    · subst e1; subst e2; exact h
+    · refine ⟨?_, ?_, ?_, ?_, ?_, ?_⟩
+      · rw [hf1]; exact h.initLeft
+      · rw [hf1]; exact h.pending
+      · rw [hf1]; exact h.inp
+      · rw [hf1]; exact hp
+      · rw [e2, e3]; simp
+      · rw [hf1]; exact h.uncomp
+
+theorem symLoopR_end (s0 : St) : ∀ (fuel : Nat) (ev mf : Bool) (s : St), Top s0 ev s → SymEnd s0 (symLoopR fuel ev mf s)
+  | 0, ev, mf, s, _ => SymEnd.none _ _
+  | fuel + 1, ev, mf, s, h => by
+    unfold symLoopR
+    have hs := symStepR_top s0 ev mf s h
+    rcases hR : symStepR ev mf s with ⟨r, q⟩
+    rw [hR] at hs
+    cases r with
+    | ok ev' t => exact symLoopR_end s0 fuel ev' mf t (hs.2 ev' t rfl)
+    | error e t =>
+      intro k hk
+      obtain ⟨ev1, t0, t', a1, a2, a3, a4, e', a5, a6⟩ := hs.1 k hk
+      injection a5 with a51 a52
+      subst a51; subst a52
+      exact ⟨ev1, t0, t, a1, a2, a3, rfl, _, rfl, a6⟩
+
+theorem lzmaRunR_end (s : St) (sym0 : Option SymSnap) (hin : s.inPos ≤ s.inp.size)
+    (hk : ∀ k, sym0 = some k → k.inPos ≤ s.inp.size) : SymEnd s (lzmaRunR s sym0) := by
+  unfold lzmaRunR
+  simp only []
+  generalize hev : (s.uncomp.isNone || s.eopmValid) = ev
+  have htop : Top s ev { s with dp := { s.dp with limit := clampedLimit s }, pending := .none } :=
+    ⟨rfl, rfl, rfl, hin, hev.symm, rfl⟩
+  generalize ({ s with dp := { s.dp with limit := clampedLimit s }, pending := .none } : St) = s1 at htop
+  cases sym0 with
+  | none =>
+    simp only []
+    have hw := doWrite_frame s.pending s1
+    cases h1 : doWrite s.pending s1 with
+    | error e t => exact SymEnd.none _ _
+    | ok x t =>
+      rw [h1] at hw
+      exact symLoopR_end s _ _ _ t (htop.of_write hw)
+  | some k =>
+    simp only []
+    have hk0 : (k.restore s1).inPos ≤ s1.inp.size := by rw [htop.inp]; exact hk k rfl
+    have ht0 : Top s ev (k.restore s1) := htop.of_restore k rfl hk0
+    have hf := decodeSymbol_frame ev (k.restore s1)
+    cases h3 : decodeSymbol ev (k.restore s1) with
+    | error e t =>
+      cases e with
+      | needInput =>
+        intro k' hk'
+        injection hk' with hk'
+        subst hk'
+        exact ⟨ev, k.restore s1, t, ht0, rfl, h3, rfl, _, rfl, rfl⟩
+      | dataError => exact SymEnd.none _ _
+      | streamEnd => exact SymEnd.none _ _
+      | outFull p => exact SymEnd.none _ _
+      | fuel => exact SymEnd.none _ _
+    | ok act t =>
+      rw [h3] at hf
+      have ht : Top s ev t := ht0.of_restore _ hf.1 (hf.2.2 ht0.inpos)
+      simp only []
+      have hw := doWrite_frame act t
+      cases h4 : doWrite act t with
+      | error e u => exact SymEnd.none _ _
+      | ok x u =>
+        rw [h4] at hw
+        exact symLoopR_end s _ _ _ u (ht.of_write hw)
+
+theorem finish_needInput (t : St) (cl st : Nat) (u : Option Nat) :
+    (lzmaFinish (.error .needInput t) cl st u).1 = .ok
+    ∧ unstick (lzmaFinish (.error .needInput t) cl st u).2
+      = { t with dp := { t.dp with limit := cl }, uncomp := u.map (· - (t.hist.size - st)), pending := .none } := by
+  unfold lzmaFinish unstick
+  simp [exitRet, exitPending, resSt]
+
+theorem restore_ov (t0 : St) (kt : SymSnap) (b : ByteArray) (L cl : Nat) (u' : Option Nat) (hp : t0.pending = .none) :
+    (SymSnap.of t0).restore
+      { ({ (kt.restore t0) with dp := { (kt.restore t0).dp with limit := cl }, uncomp := u', pending := .none } : St) with
+          inp := b, dp := { (kt.restore t0).dp with limit := L }, pending := .none } = ov b L u' t0 := by
+  cases t0
+  simp only at hp
+  subst hp
+  rfl
+
+theorem symPre_of_end (r : RSt) (ev : Bool) (t0 t : St) (cl : Nat) (u' : Option Nat)
+    (hp : t0.pending = .none) (hev : ev = (t0.uncomp.isNone || t0.eopmValid)) (hi : t0.initLeft = 0)
+    (hu : u'.isNone = t0.uncomp.isNone) (hdec : decodeSymbol ev t0 = .error .needInput t) :
+    SymPre { r with s := { t with dp := { t.dp with limit := cl }, uncomp := u', pending := .none },
+                    sym0 := some (SymSnap.of t0) } := by
+  have hf := decodeSymbol_frame ev t0
+  rw [hdec] at hf
+  have hf1 : (SymSnap.of t).restore t0 = t := hf.1
+  intro k hk
+  have hk' : SymSnap.of t0 = k := by injection hk
+  subst hk'
+  refine ⟨?_, ?_, ?_⟩
+  · show t.initLeft = 0
+    rw [← hf1]; exact hi
+  · exact hf.2.1
+  · intro L b hag
+    have e1 := restore_ov t0 (SymSnap.of t) b L cl u' hp
+    rw [hf1] at e1
+    have e2 : t.eopmValid = t0.eopmValid := by rw [← hf1]; rfl
+    have e3 : t.inp = t0.inp := by rw [← hf1]; rfl
+    have hev' : (u'.isNone || t.eopmValid) = ev := by rw [hu, e2, hev]
+    have hag' : Agree t.inPos t0.inp b := by rw [← e3]; exact hag
+    show t.inPos ≤ (resSt (decodeSymbol (u'.isNone || t.eopmValid) _)).inPos
+    rw [hev']
+    have := replay_reach ev t0 t b L u' hdec hag'
+    rw [← e1] at this
+    exact this
+
+theorem lzmaCallR_true (r : RSt) (s0 : St) (h : rcReadInit r.s = .ok true s0) :
+    lzmaCallR r = ((lzmaFinish (lzmaRunR s0 r.sym0).1 s0.dp.limit s0.hist.size s0.uncomp).1,
+      { r with s := unstick (lzmaFinish (lzmaRunR s0 r.sym0).1 s0.dp.limit s0.hist.size s0.uncomp).2,
+               sym0 := (lzmaRunR s0 r.sym0).2 }) := by
+  unfold lzmaCallR
+  rw [h]
+
+theorem lzmaCallR_stop (r : RSt) (h : ∀ s0, rcReadInit r.s ≠ .ok true s0) :
+    (lzmaCallR r).2.sym0 = r.sym0 ∧ (lzmaCallR r).1 ≠ .streamEnd := by
+  unfold lzmaCallR
+  cases hri : rcReadInit r.s with
+  | error e s0 => exact ⟨rfl, by simp⟩
+  | ok bb s0 =>
+    cases bb with
+    | false => exact ⟨rfl, by simp⟩
+    | true => exact absurd hri (h s0)
+
+theorem symPre_lzmaCallR (r : RSt) (hpre : SymPre r) (hin : r.s.inPos ≤ r.s.inp.size) : SymPre (lzmaCallR r).2 := by
+  have hz : r.s.initLeft = 0 → rcReadInit r.s = .ok true r.s := by
+    intro h0; unfold rcReadInit; rw [h0]; rfl
+  by_cases hex : ∃ s0, rcReadInit r.s = .ok true s0
+  · obtain ⟨s0, hri⟩ := hex
+    have hfr0 : Fr r.s s0 := by
+      have hfr := fr_rcReadInitN r.s.initLeft r.s
+      have : rcReadInitN r.s.initLeft r.s = .ok true s0 := hri
+      rw [this] at hfr; exact hfr
+    have s0in : s0.inPos ≤ s0.inp.size := hfr0.pos_le hin
+    have s0init : s0.initLeft = 0 := (rcReadInit_frame r.s).2.2.2 s0 hri
+    have hkk : ∀ k, r.sym0 = some k → k.inPos ≤ s0.inp.size := by
+      intro k hk
+      obtain ⟨p1, p2, _⟩ := hpre k hk
+      rw [hfr0.inp]; omega
+    have hcall := lzmaCallR_true r s0 hri
+    intro k' hk'
+    rw [hcall] at hk'
+    have hk2 : (lzmaRunR s0 r.sym0).2 = some k' := hk'
+    obtain ⟨ev, t0, t, top, hkof, hdec, _, e, hrun, he⟩ := lzmaRunR_end s0 r.sym0 s0in hkk k' hk2
+    subst he
+    have hfin := (finish_needInput t s0.dp.limit s0.hist.size s0.uncomp).2
+    have hres : (lzmaCallR r).2 = { r with s := { t with dp := { t.dp with limit := s0.dp.limit }, uncomp := s0.uncomp.map (· - (t.hist.size - s0.hist.size)), pending := .none }, sym0 := some (SymSnap.of t0) } := by
+      rw [hcall]
+      show ({ r with s := unstick (lzmaFinish (lzmaRunR s0 r.sym0).1 s0.dp.limit s0.hist.size s0.uncomp).2, sym0 := (lzmaRunR s0 r.sym0).2 } : RSt) = _
+      rw [hrun, hfin, hk2, hkof]
+    have hu : (s0.uncomp.map (· - (t.hist.size - s0.hist.size))).isNone = t0.uncomp.isNone := by
+      rw [top.uncomp]; cases s0.uncomp <;> rfl
+    have key := symPre_of_end r ev t0 t s0.dp.limit _ top.pending top.ev (top.initLeft.trans s0init) hu hdec
+    rw [← hres] at key
+    exact key k' (by rw [hcall]; exact hk2)
+  · have hne : ∀ s0, rcReadInit r.s ≠ .ok true s0 := fun s0 h => hex ⟨s0, h⟩
+    intro k' hk'
+    rw [(lzmaCallR_stop r hne).1] at hk'
+    exact absurd (hz (hpre k' hk').1) (hne _)
+
+theorem l1Spec : L1Spec := fun r hpre hin hlim => ⟨symPre_lzmaCallR r hpre hin, l1Spec' r hpre hin hlim⟩
+
+/-- LZMA_STREAM_END is never returned with a saved mid-symbol resume point -/
+theorem lzmaCallR_end_none (r : RSt) (h : (lzmaCallR r).1 = .streamEnd) : (lzmaCallR r).2.sym0 = none := by
+  by_cases hex : ∃ s0, rcReadInit r.s = .ok true s0
+  · obtain ⟨s0, hri⟩ := hex
+    have hcall := lzmaCallR_true r s0 hri
+    rw [hcall] at h ⊢
+    show (lzmaRunR s0 r.sym0).2 = none
+    have h' : (lzmaFinish (lzmaRunR s0 r.sym0).1 s0.dp.limit s0.hist.size s0.uncomp).1 = .streamEnd := h
+    cases hq : (lzmaRunR s0 r.sym0).2 with
+    | none => rfl
+    | some k =>
+      exfalso
+      -- a saved resume point means the run starved; then the return value is LZMA_OK
+      have hsome : ∀ (s : St) (sym0 : Option SymSnap) (k : SymSnap), (lzmaRunR s sym0).2 = some k →
+          ∃ t, (lzmaRunR s sym0).1 = .error .needInput t := by
+        intro s sym0 k hk
+        have hb : ∀ (ev : Bool) (t0 : St) (k : SymSnap), (symBodyR ev t0).2 = some k →
+            ∃ t, (symBodyR ev t0).1 = .error .needInput t := by
+          intro ev t0 k hk
+          unfold symBodyR at hk ⊢
+          cases h2 : rcNormalize t0 with
+          | error e t' => rw [h2] at hk; cases hk
+          | ok u t' =>
+            rw [h2] at hk
+            simp only [] at hk ⊢
+            cases h3 : decodeSymbol ev t0 with
+            | error e t =>
+              rw [h3] at hk
+              cases e with
+              | needInput => exact ⟨t, rfl⟩
+              | dataError => cases hk
+              | streamEnd => cases hk
+              | outFull p => cases hk
+              | fuel => cases hk
+            | ok act t =>
+              rw [h3] at hk
+              simp only [] at hk
+              cases h4 : doWrite act t with
+              | error e u => rw [h4] at hk; cases hk
+              | ok x u => rw [h4] at hk; cases hk
+        have hst : ∀ (ev mf : Bool) (s : St) (k : SymSnap), (symStepR ev mf s).2 = some k →
+            ∃ t, (symStepR ev mf s).1 = .error .needInput t := by
+          intro ev mf s k hk
+          unfold symStepR at hk ⊢
+          cases h1 : symPrelude ev mf s with
+          | error e t => rw [h1] at hk; cases hk
+          | ok ev1 t => rw [h1] at hk; exact hb ev1 t k hk
+        have hl : ∀ (fuel : Nat) (ev mf : Bool) (s : St) (k : SymSnap), (symLoopR fuel ev mf s).2 = some k →
+            ∃ t, (symLoopR fuel ev mf s).1 = .error .needInput t := by
+          intro fuel
+          induction fuel with
+          | zero => intro ev mf s k hk; cases hk
+          | succ n ih =>
+            intro ev mf s k hk
+            unfold symLoopR at hk ⊢
+            have h5 := hst ev mf s
+            rcases hR : symStepR ev mf s with ⟨r', q⟩
+            rw [hR] at hk h5
+            cases r' with
+            | ok ev' t => exact ih ev' mf t k hk
+            | error e t =>
+              obtain ⟨t', ht'⟩ := h5 k hk
+              injection ht' with e1 e2
+              subst e1; subst e2
+              exact ⟨t, rfl⟩
+        unfold lzmaRunR at hk ⊢
+        simp only [] at hk ⊢
+        cases sym0 with
+        | none =>
+          simp only [] at hk ⊢
+          cases h1 : doWrite s.pending { s with dp := { s.dp with limit := clampedLimit s }, pending := .none } with
+          | error e t => rw [h1] at hk; cases hk
+          | ok x t => rw [h1] at hk; exact hl _ _ _ t k hk
+        | some k0 =>
+          simp only [] at hk ⊢
+          cases h3 : decodeSymbol (s.uncomp.isNone || s.eopmValid)
+              (k0.restore { s with dp := { s.dp with limit := clampedLimit s }, pending := .none }) with
+          | error e t =>
+            rw [h3] at hk
+            cases e with
+            | needInput => exact ⟨t, rfl⟩
+            | dataError => cases hk
+            | streamEnd => cases hk
+            | outFull p => cases hk
+            | fuel => cases hk
+          | ok act t =>
+            rw [h3] at hk
+            simp only [] at hk ⊢
+            cases h4 : doWrite act t with
+            | error e u => rw [h4] at hk; cases hk
+            | ok x u => rw [h4] at hk; exact hl _ _ _ u k hk
+      obtain ⟨t, ht⟩ := hsome s0 r.sym0 k hq
+      rw [ht, (finish_needInput t _ _ _).1] at h'
+      cases h'
+  · have hne : ∀ s0, rcReadInit r.s ≠ .ok true s0 := fun s0 h => hex ⟨s0, h⟩
+    exact absurd h (lzmaCallR_stop r hne).2
+
+/-! ### `lzma_decode` neither reads nor writes the LZMA2 layer -/
+
+/-- apply a state map to the result component of a resumable run -/
+def mapP {α : Type} (g : St → St) (x : EStateM.Result Exit St α × Option SymSnap) :
+    EStateM.Result Exit St α × Option SymSnap := (mapSt g x.1, x.2)
+
+theorem symBodyR_setL2 (ev : Bool) (t0 : St) (f : L2 → L2) :
+    symBodyR ev (setL2 t0 f) = mapP (fun t => setL2 t f) (symBodyR ev t0) := by
+  unfold symBodyR
+  rw [rcNormalize_setL2, decodeSymbol_setL2]
+  cases rcNormalize t0 with
+  | error e t' => rfl
+  | ok u t' =>
+    simp only []
+    cases decodeSymbol ev t0 with
+    | error e t => cases e <;> rfl
+    | ok act t =>
+      simp only [mapSt]
+      rw [doWrite_setL2]
+      cases doWrite act t <;> rfl
+
+theorem symStepR_setL2 (ev mf : Bool) (s : St) (f : L2 → L2) :
+    symStepR ev mf (setL2 s f) = mapP (fun t => setL2 t f) (symStepR ev mf s) := by
+  unfold symStepR
+  rw [symPrelude_setL2]
+  cases symPrelude ev mf s with
+  | error e t => rfl
+  | ok ev1 t => exact symBodyR_setL2 ev1 t f
+
+theorem symLoopR_setL2 (f : L2 → L2) : ∀ (fuel : Nat) (ev mf : Bool) (s : St),
+    symLoopR fuel ev mf (setL2 s f) = mapP (fun t => setL2 t f) (symLoopR fuel ev mf s)
+  | 0, ev, mf, s => rfl
+  | fuel + 1, ev, mf, s => by
+    unfold symLoopR
+    rw [symStepR_setL2]
+    rcases symStepR ev mf s with ⟨r, q⟩
+    cases r with
+    | ok ev' t => exact symLoopR_setL2 f fuel ev' mf t
+    | error e t => rfl
+
+theorem lzmaRunR_setL2 (s : St) (sym0 : Option SymSnap) (f : L2 → L2) :
+    lzmaRunR (setL2 s f) sym0 = mapP (fun t => setL2 t f) (lzmaRunR s sym0) := by
+  unfold lzmaRunR
+  simp only []
+  cases sym0 with
+  | none =>
+    simp only []
+    have e : ({ setL2 s f with dp := { (setL2 s f).dp with limit := clampedLimit (setL2 s f) }, pending := .none } : St)
+        = setL2 { s with dp := { s.dp with limit := clampedLimit s }, pending := .none } f := rfl
+    rw [e, doWrite_setL2]
+    show (match mapSt _ (doWrite s.pending _) with
+          | .error e t => (EStateM.Result.error e t, (none : Option SymSnap))
+          | .ok _ t => symLoopR (clampedLimit s - s.dp.pos + 2) (s.uncomp.isNone || s.eopmValid) (mightFinish s) t) = _
+    cases doWrite s.pending { s with dp := { s.dp with limit := clampedLimit s }, pending := .none } with
+    | error e t => rfl
+    | ok x t => exact symLoopR_setL2 f _ _ _ t
+  | some k =>
+    simp only []
+    have e : k.restore ({ setL2 s f with dp := { (setL2 s f).dp with limit := clampedLimit (setL2 s f) }, pending := .none } : St)
+        = setL2 (k.restore { s with dp := { s.dp with limit := clampedLimit s }, pending := .none }) f := rfl
+    rw [e]
+    show (match decodeSymbol (s.uncomp.isNone || s.eopmValid) (setL2 _ f) with
+          | .error .needInput t => (EStateM.Result.error Exit.needInput t, some k)
+          | .error e t => (EStateM.Result.error e t, none)
+          | .ok act t =>
+            match doWrite act t with
+            | .error e u => (EStateM.Result.error e u, none)
+            | .ok _ u => symLoopR (clampedLimit s - s.dp.pos + 2) (s.uncomp.isNone || s.eopmValid) (mightFinish s) u) = _
+    rw [decodeSymbol_setL2]
+    cases decodeSymbol (s.uncomp.isNone || s.eopmValid) (k.restore { s with dp := { s.dp with limit := clampedLimit s }, pending := .none }) with
+    | error e t => cases e <;> rfl
+    | ok act t =>
+      simp only [mapSt]
+      rw [doWrite_setL2]
+      cases doWrite act t with
+      | error e u => rfl
+      | ok x u => exact symLoopR_setL2 f _ _ _ u
+
+theorem lzmaFinish_setL2 (x : EStateM.Result Exit St Unit) (cl st : Nat) (u : Option Nat) (f : L2 → L2) :
+    lzmaFinish (mapSt (fun t => setL2 t f) x) cl st u = ((lzmaFinish x cl st u).1, setL2 (lzmaFinish x cl st u).2 f) := by
+  cases x with
+  | ok a t => rfl
+  | error e t => cases e <;> rfl
+
+theorem unstick_setL2 (s : St) (f : L2 → L2) : unstick (setL2 s f) = setL2 (unstick s) f := by
+  unfold unstick
+  show (if s.pending == .stuck then _ else _) = _
+  cases (s.pending == .stuck) <;> rfl
+
+theorem lzmaCallR_setL2 (r : RSt) (f : L2 → L2) :
+    lzmaCallR (r.map fun s => setL2 s f) = ((lzmaCallR r).1, (lzmaCallR r).2.map fun s => setL2 s f) := by
+  unfold lzmaCallR
+  have e : rcReadInit (r.map fun s => setL2 s f).s = mapSt (fun t => setL2 t f) (rcReadInit r.s) :=
+    rcReadInitN_setL2 r.s.initLeft r.s f
+  rw [e]
+  cases rcReadInit r.s with
+  | error e s0 => rfl
+  | ok bb s0 =>
+    cases bb with
+    | false => rfl
+    | true =>
+      simp only [mapSt]
+      have e2 : (r.map fun s => setL2 s f).sym0 = r.sym0 := rfl
+      rw [e2, lzmaRunR_setL2]
+      have e3 : lzmaFinish (mapP (fun t => setL2 t f) (lzmaRunR s0 r.sym0)).1 (setL2 s0 f).dp.limit (setL2 s0 f).hist.size (setL2 s0 f).uncomp = ((lzmaFinish (lzmaRunR s0 r.sym0).1 s0.dp.limit s0.hist.size s0.uncomp).1, setL2 (lzmaFinish (lzmaRunR s0 r.sym0).1 s0.dp.limit s0.hist.size s0.uncomp).2 f) := lzmaFinish_setL2 _ _ _ _ f
+      simp only [e3, unstick_setL2]
+      rfl
+
 end XzVerif.LzmaR
